@@ -89,3 +89,9 @@ Theorem C05_unseen_wrapper_uses_transform_reference :
   In ("inverse_transform_scores"%string, Mic.RefFit) T7mic.wrapper_refs.
 Proof. exact Mic_tie.wrappers_split. Qed.
 Print Assumptions C05_unseen_wrapper_uses_transform_reference.
+
+(* table regenerated from every model and rotator class: transform/predict map scores back on the unseen path, accessors
+   of the fitted scores (scores, scores_amplitude, scores_phase) on the fit path *)
+Theorem C05_score_paths : forallb C05_tie.path_ok score_paths = true /\ (13 <= List.length score_paths)%nat.
+Proof. exact C05_tie.score_paths_ok. Qed.
+Print Assumptions C05_score_paths.
